@@ -109,8 +109,16 @@ MUTATIONS = [
      r"re:if q == to_id \{\s*return true;\s*\}\s*p = q;",
      "if q == to_id {\n                return true;\n            }\n            hops += 1;\n            if hops > 8 {\n                return false;\n            }\n            p = q;"),
     ('dg-occupied-thread-changed', 'DG', 'src/runtime/dependency_graph.rs',
-     r"re:(compared to just updating all dependent threads\.\s*)true",
-     r"\1current_thread != new_owner_thread"),
+     r"re:(compared to just updating all dependent threads\.\s*)\(true, true\)",
+     r"\1(current_thread != new_owner_thread, true)"),
+    # revert of 93e495e: the same-mapping arm returns early whatever thread the owner runs on
+    ('dg-same-mapping-always-noop', 'DG', 'src/runtime/dependency_graph.rs',
+     r"re:if current_thread == new_owner_thread \{(\s*//[^\n]*|\s*#\[cfg\(salsa_verif\)\]\s*verif_line\(dg, \"noop\", false\);)*\s*return false;\s*\}.*?\(true, false\)",
+     "return false;"),
+    ('dg-retransfer-registers-again', 'DG', 'src/runtime/dependency_graph.rs',
+     r"re:(wrong waiter and leaves the right one blocked on itself\.\s*)\(true, false\)", r"\1(true, true)"),
+    ('dg-always-registers-dependent', 'DG', 'src/runtime/dependency_graph.rs',
+     "        if new_mapping {\n", "        if true {\n"),
     ('dg-depends-on-tail-false', 'DG', 'src/runtime/dependency_graph.rs',
      "        p == to_id\n    }", "        false\n    }"),
     ('dg-notify-before-store', 'DG', 'src/runtime/dependency_graph.rs',
